@@ -66,11 +66,17 @@ def cases_scaler(tier):
     for which in ("s", "o", "so", "none"):
         for lk, uk in itertools.product(("fin", "-inf"), ("fin", "+inf")):
             yield "%s/%s/%s" % (which, lk, uk), {"which": which, "lk": lk, "uk": uk}
+            if tier == "thorough":
+                for n in (1, 3):
+                    yield "%s/%s/%s/n%d" % (which, lk, uk, n), {"which": which, "lk": lk, "uk": uk, "n": n}
+        if tier == "thorough":
+            # mixed bound kinds over the variables
+            yield "%s/mixed" % which, {"which": which, "lks": ["fin", "-inf", "fin"], "uks": ["+inf", "fin", "fin"], "n": 3}
 
 
 def scn_scaler(T, case):
     _shadow(T, [MV])
-    n = 2
+    n = case.get("n", 2)
     s, o = _so(T, n, case["which"])
     sc = _scaler(T, s, o)
     x = T.real("x", (n,))
@@ -79,8 +85,8 @@ def scn_scaler(T, case):
     y = T.real("y", (2, n))
     T.prove("C11.scaler.round_trip_optimizer_to_user_and_back", T.same(sc.to_optimizer(sc.from_optimizer(y)), y))
     T.prove("C11.scaler.arguments_not_modified", T.same(x, T.inputs["x"]))
-    lb = T.real("lb", (n,), kinds=np.array([case["lk"]] * n, dtype=object))
-    ub = T.real("ub", (n,), kinds=np.array([case["uk"]] * n, dtype=object))
+    lb = T.real("lb", (n,), kinds=np.array(case.get("lks") or [case["lk"]] * n, dtype=object))
+    ub = T.real("ub", (n,), kinds=np.array(case.get("uks") or [case["uk"]] * n, dtype=object))
     T.assume(T.all(lb <= ub))
     lh, uh = sc.to_optimizer(lb), sc.to_optimizer(ub)
     for i in range(n):
@@ -140,7 +146,7 @@ def scn_requests(T, case):
 # ------------------------------------------------------------------------------------ linear constraints
 def cases_linear(tier):
     for which in ("s", "so", "o"):
-        for rows, n in ((1, 1), (1, 2), (2, 2)):
+        for rows, n in ((1, 1), (1, 2), (2, 2)) + (((2, 1), (1, 3), (2, 3), (3, 2)) if tier == "thorough" else ()):
             for lk, uk in itertools.product(("fin", "-inf"), ("fin", "+inf")):
                 yield "%s/rows%d-vars%d/%s/%s" % (which, rows, n, lk, uk), {"which": which, "rows": rows, "n": n, "lk": lk, "uk": uk}
 
